@@ -5,6 +5,7 @@ import Proofs.C13.Equiv
 import Proofs.C13.Part
 import Proofs.C13.LookbackEquiv
 import Proofs.C13.PartLB
+import Proofs.C13.Reads
 /-!
 # C13 — property theorems (statements only; proofs in `Proofs/C13*.lean`)
 
@@ -64,16 +65,29 @@ theorem client_inv (st : Streams) (cfg : Cfg) (steps : List Step) (hc : CanonSte
   exact ⟨hd.1, hd.2, hi.keyEq, core_of_key _ _ hi.keyEq⟩
 
 /-- **observational equivalence**: whatever updates the client has seen and whatever plain or
-look-back queries (at any, also non-monotonic, query times) were served in between, every answer —
-plain shuffle shard and look-back shuffle shard at any query time (cache hits and misses), key
-lookups, counters, the descriptor itself — equals the answer of a client freshly built from the
-latest descriptor, in every field of every returned instance.
+look-back queries (at any, also non-monotonic, query times) were served in between, EVERY MODELLED READ of
+the long-lived client's state equals the same read of a client freshly built from the latest descriptor,
+in every field of every returned instance:
+* the plain and the look-back shuffle shard at any query time (cache hits and misses);
+* `Get` on the returned sub-ring (`getOnShard`, `getOnShardLB`), any key / operation / replication factor;
+* `Get` / `GetWithOptions` on the ring itself (`readGet`: token circle, owners, zones and per-zone
+  counts from the kept indexes, instances from the latest descriptor), any operation and per-call
+  replication factor; `get1` is its RF-1 special form kept from earlier rounds;
+* `GetReplicationSetForOperation` (`readAll`), `GetTokenRangesForInstance` (`readRanges`), `Zones`
+  (`readZones`), the instance / zone counters, and the descriptor itself.
 (Full strength since fix 0ec0b1e; before it the statement held only up to `Versions`.) -/
 theorem observational_equivalence (st : Streams) (cfg : Cfg) (steps : List Step) (hc : CanonSteps steps) :
     let c := run st { cfg := cfg } steps
     let f := fresh cfg (lastDesc steps [])
     (∀ ident size, (queryShard c st ident size).1 = (queryShard f st ident size).1) ∧
     (∀ ident size period now, (queryShardLB c st ident size period now).1 = (queryShardLB f st ident size period now).1) ∧
+    (∀ rf hb ident size k op now, getOnShard c st rf hb ident size k op now = getOnShard f st rf hb ident size k op now) ∧
+    (∀ rf hb ident size period qnow k op now,
+      getOnShardLB c st rf hb ident size period qnow k op now = getOnShardLB f st rf hb ident size period qnow k op now) ∧
+    (∀ rcfg k op now rfCall, readGet rcfg c.idx c.desc k op now rfCall = readGet rcfg f.idx f.desc k op now rfCall) ∧
+    (∀ rcfg op now, readAll rcfg c.idx c.desc op now = readAll rcfg f.idx f.desc op now) ∧
+    (∀ rcfg id, readRanges rcfg c.idx c.desc id = readRanges rcfg f.idx f.desc id) ∧
+    readZones c.idx = readZones f.idx ∧
     (∀ k, get1 c k = get1 f k) ∧ (∀ zs, counts c zs = counts f zs) ∧ c.desc = f.desc := by
   have hi := inv_run st steps { cfg := cfg } (inv_init st cfg) hc
   have hd := run_desc st steps { cfg := cfg }
@@ -81,9 +95,27 @@ theorem observational_equivalence (st : Streams) (cfg : Cfg) (steps : List Step)
   have e : fresh cfg (lastDesc steps []) = fresh (run st { cfg := cfg } steps).cfg (run st { cfg := cfg } steps).desc := by
     rw [hd.1, hd.2]
   rw [e]
-  refine ⟨fun i s => queryShard_equiv st _ hi i s, fun i s p n => queryShardLB_equiv st _ hi i s p n,
-    fun k => get1_equiv st _ hi k, fun zs => counts_equiv st _ hi zs, ?_⟩
-  rw [fresh_eq]
+  have hf := fresh_fields (run st { cfg := cfg } steps).cfg (run st { cfg := cfg } steps).desc
+  rw [hf.1, hf.2.1]
+  exact ⟨fun i s => queryShard_equiv st _ hi i s, fun i s p n => queryShardLB_equiv st _ hi i s p n,
+    fun rf hb i s k op n => getOnShard_equiv st _ hi rf hb i s k op n,
+    fun rf hb i s p q k op n => getOnShardLB_equiv st _ hi rf hb i s p q k op n,
+    fun rc k op n r => readGet_of_key rc _ _ _ hi.keyEq k op n r,
+    fun rc op n => readAll_of_key rc _ _ _ hi.keyEq op n,
+    fun rc id => readRanges_of_key rc _ _ _ hi.keyEq id,
+    readZones_of_key _ _ hi.keyEq,
+    fun k => get1_equiv st _ hi k, fun zs => counts_equiv st _ hi zs, rfl⟩
+
+/-- on a freshly built client (index descriptor = latest descriptor, canonical) the reads of the C13
+model ARE the models of the other properties: `C01.getWith` (C01), `C02.getAll` (C02),
+`C14.rangesForInstance` (C14) — so `observational_equivalence` transports every theorem of those
+properties about a ring descriptor to the long-lived client. -/
+theorem fresh_reads_are_the_models (rcfg : C01.Cfg) (d : Desc) (hd : Canon d) :
+    (∀ k op now rfCall, readGet rcfg d d k op now rfCall = C01.getWith rcfg d (C01.sortedTokens d) k op now rfCall) ∧
+    (∀ op now, readAll rcfg d d op now = C02.getAll rcfg d (C01.sortedTokens d) op now) ∧
+    (∀ id, readRanges rcfg d d id = C14.rangesForInstance d rcfg.zoneAware rcfg.rf id) :=
+  ⟨fun k op now r => readGet_fresh rcfg d hd k op now r, fun op now => readAll_fresh rcfg d op now,
+    fun id => readRanges_fresh rcfg d id⟩
 
 /-- **lookback_window_valid**: after any history, a cached look-back sub-ring is valid for every
 window start in `[after, before]`: there the ring itself would not be returned and the look-back
